@@ -153,6 +153,9 @@ class StoredEditsNative(Contract):
         for version in (2.0, 2.1):
             for attrs in (["name"], ["planning", "cost"], ["name", "end_of_hole"], ["collar"], ["surveys"], ["surveys", "name"]):
                 yield {"kind": "concatenated-scalars", "version": version, "attrs": attrs}
+            # coordinates whose shortest text uses an exponent (very small, very large) or no decimal point
+            for collar in ([1.5e-07, -3e-05, 1e17], [3e-07, 2.0, 5.0], [-0.0, 1e-10, 123456789.125]):
+                yield {"kind": "concatenated-scalars", "version": version, "attrs": ["collar"], "collar": collar}
 
     def native_check(self, case):
         import os
@@ -394,13 +397,19 @@ class StoredEditsNative(Contract):
                 h.add_data({"Au": {"depth": np.array([1.0, 2.0]), "values": np.arange(2.0) + k}})
         new = {"name": "hole_renamed", "planning": "Ongoing", "cost": 1234.5, "end_of_hole": 77.0, "collar": [5.0, 6.0, 7.0],
                "surveys": np.c_[np.r_[0.0, 20.0, 40.0], np.r_[10.0, 20.0, 30.0], np.r_[-80.0, -70.0, -60.0]]}
+        if case.get("collar"):
+            new["collar"] = [float(x) for x in case["collar"]]
         with Workspace(path, mode="r+") as ws:  # a session that only edits scalar attributes of a stored hole
             h = [c for c in ws.get_entity("DH")[0].children if c.name == "hole_1"][0]
             uid = h.uid
             for a in case["attrs"]:
                 setattr(h, a, new[a])
-        with Workspace(path, mode="r") as ws:
+        try:
+            ws = Workspace(path, mode="r")
             h = ws.get_entity(uid)[0]
+        except Exception as exc:
+            return f"after assigning {({a: new[a] for a in case['attrs']})} to a stored hole the file cannot be read any more: {type(exc).__name__}: {exc} ({case})"
+        with ws:
             for a in case["attrs"]:
                 got = getattr(h, a)
                 got = [float(got[k]) for k in ("x", "y", "z")] if a == "collar" else got
